@@ -278,12 +278,34 @@ def check_decode(ctx: Ctx, fi: FuncInfo):
         raise AnchorError(fi.short, "interpret_as_qtype call not found")
     c = cs[0]
     core, par = q.reversal_parity(c.args[0], binds)
-    ok = isinstance(core, ast.ListComp) and norm(core.generators[0].iter) == f"{a}.bitvec" and not core.generators[0].ifs and q.reversal_parity(core.generators[0].iter)[1] == 0
-    ctx.check(ok and par == 1, "OR-FLOW", fi, "bits read in bitvec (LSB-first) order, reversed once for interpret_as_qtype", f"{par} reversal(s) of [.. for bv in {a}.bitvec]", f"interpret_as_qtype expects a measurement-order (MSB-first) sequence and reverses it itself; it is handed `{norm(c.args[0])}` = {par} reversal(s) of `{norm(core)[:60]}`", c)
+    src_iter = None  # the iterable the bit list is filled from, in order
+    if isinstance(core, ast.ListComp) and len(core.generators) == 1 and core.generators[0].ifs and norm(q.reversal_parity(core.generators[0].iter)[0]) == f"{a}.bitvec":
+        ctx.fail("OR-FLOW", fi, "bits read in bitvec (LSB-first) order, reversed once for interpret_as_qtype", f"`{norm(core)[:100]}` skips the bits that fail `{norm(core.generators[0].ifs[0])}`: every later bit moves down one position (bit k of the list is no longer bit k of the argument)", c)
+        return
+    if isinstance(core, ast.ListComp) and not core.generators[0].ifs and len(core.generators) == 1:
+        src_iter = core.generators[0].iter
+    elif isinstance(core, ast.List) and not core.elts:
+        # `bits = []` filled by appends in one loop, every iteration appending exactly once
+        nm = [k for k, v in binds.items() if v is core]
+        lps = [x for x in q.for_loops(l, nested=True) if x is not l and nm and any(norm(cc.func.value) == nm[0] for cc in q.method_calls(x, "append"))]
+        if len(lps) == 1 and not any(isinstance(cc.func, ast.Attribute) and cc.func.attr == "insert" and norm(cc.func.value) == nm[0] for cc in q.calls(l)):
+            src_iter = lps[0].iter
+    if src_iter is None:
+        ctx.undecided(fi.short, f"the bit list handed to interpret_as_qtype (`{norm(c.args[0])[:60]}`) is not built by one comprehension / one appending loop over the argument's bits")
+    else:
+        s_core, s_par = q.reversal_parity(src_iter)
+        ok = norm(s_core) == f"{a}.bitvec"
+        tot = (par + s_par) % 2
+        ctx.check(ok and tot == 1, "OR-FLOW", fi, "bits read in bitvec (LSB-first) order, reversed once for interpret_as_qtype", f"{tot} reversal(s) of the bits of {a}.bitvec", f"interpret_as_qtype expects a measurement-order (MSB-first) sequence and reverses it itself; it is handed `{norm(c.args[0])}` = {tot} reversal(s) of the bits of `{norm(s_core)[:60]}`", c)
     ctx.check([norm(x) for x in c.args[1:]] == [f"{a}.ttype", f"len({a})"], "OR-FLOW", fi, "decoded with the argument's type and width", "", f"decoded with {[norm(x) for x in c.args[1:]]}", c)
-    if ok:
+    if src_iter is not None and isinstance(core, ast.ListComp):
         elt = core.elt
         bv = norm(core.generators[0].target)
         ctx.check(f"sample[{bv}]" in norm(elt), "OR-FLOW", fi, "each bit read from the sample under its own name", norm(elt)[:60], "", c)
+    elif src_iter is not None:
+        lp_ = [x for x in q.for_loops(l, nested=True) if x.iter is src_iter]
+        bv = norm(lp_[0].target) if lp_ else "?"
+        reads = [n for n in ast.walk(lp_[0]) if isinstance(n, ast.Subscript) and norm(n.value).endswith(".sample")] if lp_ else []
+        ctx.check(bool(reads) and all(norm(n.slice) == bv for n in reads), "OR-FLOW", fi, "each bit read from the sample under its own name", f"sample[{bv}]", f"a bit is read from the sample under {[norm(n.slice) for n in reads]}, not under its own name `{bv}`", c)
     par_st = fi.pm.get(c)
     ctx.check(isinstance(par_st, ast.Assign) and norm(par_st.targets[0]).endswith(f"[{a}.name]"), "OR-FLOW", fi, "result keyed by argument name", "", "", c)
